@@ -477,8 +477,13 @@ def exec_cli_history(ctx, case):
                     data = data + b'+'
                 with open(os.path.join(root, f), 'wb') as fh:
                     fh.write(data)
-                clock += 100
-                os.utime(os.path.join(root, f), (clock, clock))
+                if ed.get('same_second'):
+                    # later than the TIMESTAMP, but within the second it names
+                    mt = clock + 0.75
+                else:
+                    clock += 100
+                    mt = clock
+                os.utime(os.path.join(root, f), (mt, mt))
             if st['scope'] is not None and dirs:
                 target = os.path.join(root, dirs[st['scope'] % len(dirs)])
                 scope = os.path.relpath(target, root)
@@ -514,8 +519,9 @@ def run_cli_history(u, ctx):
         steps = []
         for _ in range(rng.randint(2, 4)):
             steps.append({'edits': [{'pick': rng.randrange(1 << 20),
-                                     'same': rng.random() < 0.7}
-                                    for _ in range(rng.randint(1, 3))],
+                                     'same': rng.random() < 0.7,
+                                     'same_second': k == 0 and rng.random() < 0.4}
+                                    for k in range(rng.randint(1, 3))],
                           'scope': rng.randrange(1 << 20) if rng.random() < 0.5 else None,
                           'incremental': rng.random() < 0.7})
         # the history ends with a whole-tree incremental update (edits outside the
